@@ -40,5 +40,6 @@ class LinearMeanGrad(Mean):
         res = x.matmul(self.weights)
         if self.bias is not None:
             res = res + self.bias.unsqueeze(-1)
-        dres = self.weights.expand(x.transpose(-1, -2).shape).transpose(-1, -2)
+        # (res carries the broadcast of the input's and the mean's batch shapes)
+        dres = self.weights.expand(*res.shape[:-2], x.size(-1), x.size(-2)).transpose(-1, -2)
         return torch.cat((res, dres), -1)
